@@ -288,8 +288,9 @@ static aligned_t qthread_syncvar_nonblocker_thread(void *arg)
         case WRITEF: a->retval     = qthread_syncvar_writeF(a->a, a->b); break;
         case FILL: a->retval       = qthread_syncvar_fill(a->a); break;
         case EMPTY: a->retval      = qthread_syncvar_empty(a->a); break;
-        default: return 1;
+        default: a->retval         = QTHREAD_BADARGS; break;
     }
+    pthread_mutex_unlock(&(a->lock));
     return 0;
 }                                      /*}}} */
 
@@ -319,7 +320,12 @@ static int qthread_syncvar_nonblocker_func(void        *dest,
 {   /*{{{*/
     qthread_syncvar_blocker_t args = { PTHREAD_MUTEX_INITIALIZER, dest, src, t, QTHREAD_SUCCESS };
 
+    /* the forked task works on args (and on *src): do not return before it is done */
+    pthread_mutex_lock(&args.lock);
     qthread_fork(qthread_syncvar_nonblocker_thread, &args, NULL);
+    pthread_mutex_lock(&args.lock);
+    pthread_mutex_unlock(&args.lock);
+    pthread_mutex_destroy(&args.lock);
     return args.retval;
 } /*}}}*/
 
